@@ -208,7 +208,7 @@ def main():
           "assumptions": propinfo.ASSUMPTIONS + info.get("assumptions", []) + scan_assumptions(),
           "wall_s": round(wall, 2), "violations": len(violations)}
     # evidence describes /repo; a development run against another tree (VERIF_REPO, used for seeded changes) must not overwrite it
-    evdir = os.path.join(VERIF, "evidence") if os.path.realpath(driver.REPO) == "/repo" else os.environ.get("VERIF_EVIDENCE_DIR", "/tmp/vf_evidence_other_tree")
+    evdir = os.environ.get("VERIF_EVIDENCE_DIR") or (os.path.join(VERIF, "evidence") if os.path.realpath(driver.REPO) == "/repo" else "/tmp/vf_evidence_other_tree")
     os.makedirs(evdir, exist_ok=True)
     json.dump(ev, open(os.path.join(evdir, prop + ".json"), "w"), indent=1)
     print("%s %s: units=%d proof-obligations=%d/%d bounded-obligations=%d/%d known=%d violations=%d undecided=%d wall=%.1fs" % (
